@@ -1,5 +1,6 @@
 import RaptorModel.Driver.Common
 import RaptorModel.Model.Stencil
+import RaptorModel.Model.MatrixMarket
 /-! Driver for C19: generated stencil matrices vs the coordinate definition; matrices read back from
 Matrix Market / PETSc files vs their source. -/
 namespace Raptor.Driver.C19
@@ -58,10 +59,44 @@ def checkMatEq : Rd Verdict := do
     if !((a.2.2 - b.2.2).abs ≤ tol * a.2.2.abs) then return specFail (base ++ "/spec/value") s!"({a.1},{a.2.1}): written {a.2.2}, read {b.2.2}" feats
   return ok feats
 
+/-- Matrix Market files: the writer model applied to the source gives the file; the reader model applied to the file
+    gives what the real reader returned (values as parsed bit patterns) -/
+def checkMmFile : Rd Verdict := do
+  let who ← rdNat; let okf ← rdNat; let sy ← rdNat; let M ← rdNat; let N ← rdNat; let nz ← rdNat
+  let ln ← rdVec; let n ← rdNat; let m ← rdNat; let src ← rdVec; let got ← rdVec; let gr ← rdInt; let gc ← rdInt
+  let base := s!"C19/mmfile/{whoName who}"
+  let feats := ["mmfile", whoName who, if sy != 0 then "symmetric" else "general"] ++ (if ln.isEmpty then ["trivial"] else [])
+  if okf == 0 then return specFail (base ++ "/spec/unreadable") "no size line" feats
+  let rec lines3 : List Int → List (Nat × Nat × Int)
+    | i :: j :: v :: rest => (i.toNat, j.toNat, v) :: lines3 rest
+    | _ => []
+  let file : MatrixMarket.MMFile Int := { symmetric := sy != 0, nRows := M, nCols := N, nnzDeclared := nz, lines := lines3 ln }
+  if !file.WF then return specFail (base ++ "/spec/file_malformed") s!"{M}x{N} nnz={nz}, {file.lines.length} lines" feats
+  if M != n || N != m then return specFail (base ++ "/spec/size_line") s!"file says {M}x{N}, matrix is {n}x{m}" feats
+  -- writer: the file is the model's image of the source matrix (general files written by write_mm)
+  if who == 1 then
+    let srcRows : List (List (Nat × Int)) := (List.range n).map fun i => (lines3 src).filterMap fun e => if e.1 == i then some (e.2.1, e.2.2) else none
+    let w := MatrixMarket.writeMM (⟨n, m, srcRows⟩ : Sparse.Csr Int)
+    -- values travel through printf("%2.15e") and back: compare indices exactly, values to printed precision
+    let same := w.lines.length == file.lines.length && (w.lines.zip file.lines).all fun p =>
+      p.1.1 == p.2.1 && p.1.2.1 == p.2.2.1 &&
+      (let a := bitsToFloat p.1.2.2; let b := bitsToFloat p.2.2.2; (a - b).abs ≤ 4e-15 * a.abs)
+    if !same || w.nnzDeclared != file.nnzDeclared || w.symmetric != file.symmetric then
+      return diff (base ++ "/writer") s!"file has {file.lines.length} lines (declared {file.nnzDeclared}), model writes {w.lines.length}" feats
+  -- reader: model on the file = what read_mm returned (bitwise: same parser results)
+  let mr := (MatrixMarket.readMM file).entries
+  let gotE := lines3 got
+  let srt (l : List (Nat × Nat × Int)) := l.toArray.qsort (fun a b => a.1 < b.1 || (a.1 == b.1 && (a.2.1 < b.2.1 || (a.2.1 == b.2.1 && a.2.2 < b.2.2)))) |>.toList
+  if gr != (M : Int) || gc != (N : Int) then return specFail (base ++ "/spec/dims") s!"{gr}x{gc}" feats
+  if srt mr != srt gotE then
+    return diff (base ++ "/reader") s!"model reads {mr.length} entries, implementation {gotE.length}; first model {repr ((srt mr).take 3)} first impl {repr ((srt gotE).take 3)}" feats
+  return ok feats
+
 def run (op : String) (a : Array Int) : Verdict :=
   let r := match op with
     | "stencil" => runRd checkStencil a
     | "mateq" => runRd checkMatEq a
+    | "mmfile" => runRd checkMmFile a
     | _ => some (badCase s!"unknown op {op}")
   r.getD (badCase "malformed")
 
